@@ -114,6 +114,10 @@ class SameError(KeyError):
     def __hash__(self):
         return 11
 
+    def __bool__(self):
+        # ... and every third one is falsy on top (an error collection that is empty)
+        return bool(self.args and sum(map(ord, str(self.args[0]))) % 3)
+
 
 #: what a failing activity raises: mostly its own kind of error, now and then one of the
 #: library's public exception types - as a failure of an activity they are failures like any other
